@@ -34,6 +34,7 @@ class Exec(ExprMixin, CallMixin, StmtMixin):
     iter_handlers = {}
     sortedof_handlers = {}
     sortkey_handlers = {}
+    delitem_handlers = {}
     global_values = {}
     global_calls = {}
     type_aliases = {}
